@@ -668,17 +668,35 @@ impl G {
                 self.add("lea", "lea", sz, format!("(ILea {} {} {})", sz, d, mm.coq()), format!("lea {}, {}", regname(d, sz), mm.text(0)), vec![Op::Reg(d), mm.clone()],
                     Enc { mode: m, opsz: sz, def64: false, pre: &[], opc: &[0x8D], reg: Some(RegF::R(d, false)), rm: Some((&mm, false)), plusr: None, imm: vec![] }, 0);
             }
-            if m == Mode::M64 {
-                // loads and stores through the prefixed operand (the wrapped address must be mapped: amd64 only)
-                let sz = *self.r.pick(&[8u8, 16, 32, 64]);
+            {
+                // bit strings through the prefixed operand: the element address EA + (offset >>s log2 size) * size/8
+                // wraps at the address width as a whole (round 5: the lifter added the displacement at 64 bits)
+                let nth = self.r.below(4) as usize;
+                let (c, mn, opc) = [("BtT", "bt", 0xA3u8), ("BtS", "bts", 0xAB), ("BtR", "btr", 0xB3), ("BtC", "btc", 0xBB)][nth];
+                let sz = if m == Mode::M64 { if self.r.chance(3, 4) { 64 } else { 32 } } else { *self.r.pick(&[16u8, 32]) };
+                let s = self.gp_nosp();
+                self.add("bt-mem-reg", mn, sz, format!("(IBt {} {} {} (OReg {}))", c, sz, mm.coq(), s), format!("{} {}, {}", mn, mm.text(sz), regname(s, sz)), vec![mm.clone(), Op::Reg(s)],
+                    Enc { mode: m, opsz: sz, def64: false, pre: &[], opc: &[0x0F, opc], reg: Some(RegF::R(s, false)), rm: Some((&mm, false)), plusr: None, imm: vec![] }, 0);
+            }
+            {
+                // loads and stores through the prefixed operand (32-bit mode: one of the three, the bytes are made
+                // part of the image by the sampler)
+                let sz = if m == Mode::M64 { *self.r.pick(&[8u8, 16, 32, 64]) } else { *self.r.pick(&[8u8, 16, 32]) };
                 let w = if sz == 8 { 0 } else { 1 };
                 let r = self.rop(sz, false);
+                let which = if m == Mode::M64 { 3 } else { self.r.below(3) as usize };
+                if which == 3 || which == 0 {
                 self.add("mov", "mov", sz, format!("(IMov {} {} {})", sz, r.coq(), mm.coq()), format!("mov {}, {}", r.text(sz), mm.text(sz)), vec![r.clone(), mm.clone()],
                     Enc { mode: m, opsz: sz, def64: false, pre: &[], opc: &[0x8A + w], reg: Some(G::regf(&r, sz)), rm: Some((&mm, false)), plusr: None, imm: vec![] }, 0);
+                }
+                if which == 3 || which == 1 {
                 self.add("mov", "mov", sz, format!("(IMov {} {} {})", sz, mm.coq(), r.coq()), format!("mov {}, {}", mm.text(sz), r.text(sz)), vec![mm.clone(), r.clone()],
                     Enc { mode: m, opsz: sz, def64: false, pre: &[], opc: &[0x88 + w], reg: Some(G::regf(&r, sz)), rm: Some((&mm, false)), plusr: None, imm: vec![] }, 0);
+                }
+                if which == 3 || which == 2 {
                 self.add("alu", "add", sz, format!("(IAlu AAdd {} {} {})", sz, mm.coq(), r.coq()), format!("add {}, {}", mm.text(sz), r.text(sz)), vec![mm.clone(), r.clone()],
                     Enc { mode: m, opsz: sz, def64: false, pre: &[], opc: &[w], reg: Some(G::regf(&r, sz)), rm: Some((&mm, false)), plusr: None, imm: vec![] }, 0);
+                }
             }
         }
     }
@@ -1170,6 +1188,15 @@ fn sample(f: &Form, r: &mut Rng, k: usize) -> Sample {
         "bt-mem-reg" => {
             if let Some(Op::Reg(o)) = f.ops.get(1) {
                 if r.chance(3, 4) { s.g[*o as usize] = (r.below(129) as i64 - 64) as u64; }
+                // narrow addressing: a bit offset whose byte displacement is a small amount plus a multiple of
+                // 2^asz, so that the element is mapped exactly when the whole address wraps at the address width
+                if let Some(Op::Mem { asz, .. }) = f.ops.first() {
+                    if (*asz as u32) + 3 < sz as u32 && k % 3 != 0 {
+                        let small = (r.below(129) as i64 - 64) as u64;
+                        let j = (r.next() | 1) & mask(sz - asz - 3);
+                        s.g[*o as usize] = small.wrapping_add(j << (*asz as u32 + 3)) & mask(sz) | if sz < 64 { r.next() << sz } else { 0 };
+                    }
+                }
             }
         }
         "ctl-ind" => {
@@ -1316,6 +1343,17 @@ fn sample(f: &Form, r: &mut Rng, k: usize) -> Sample {
                     let el = a.wrapping_add((idx.wrapping_mul(f.sz as i64 / 8)) as u64) & mask(*asz);
                     s.ranges.push((el.wrapping_sub(8), 24));
                 }
+            }
+        }
+    }
+    // 32-bit mode, 16-bit addressing: the addresses lie below 64 KiB, outside the regions of the image; the bytes
+    // the instruction may touch are made part of the image as explicit bytes (there is no processor run in this
+    // mode, the specification and the IL both start from the image)
+    if !m64 && f.ops.iter().any(|o| matches!(o, Op::Mem { asz: 16, .. })) {
+        for (a, n) in s.ranges.clone() {
+            for i in 0..n {
+                let addr = a.wrapping_add(i);
+                if addr < 0x10000 { let b = s.byte(addr); s.set_bytes(addr, b as u128, 1); }
             }
         }
     }
